@@ -275,6 +275,11 @@ impl SubCheck for Unary {
         let f = d.as_seconds_f64();
         let exact = v as f64 / 1e9;
         ensure!((f - exact).abs() <= exact.abs() * 1e-12 + 1e-9, "as_seconds_f64 of {v}: {f} vs {exact}");
+        // single precision: 24-bit significand; whole seconds, fraction and their sum are each rounded once,
+        // and the whole-second part of a negative value is one larger in magnitude than the value
+        let f32v = d.as_seconds_f32() as f64;
+        ensure!((f32v - exact).abs() <= (exact.abs() + 1.0) * 2.4e-7, "as_seconds_f32 of {v}: {f32v} vs {exact}");
+        ensure!((f32v >= 0.0) == (v >= 0) || f32v == 0.0, "as_seconds_f32 of {v} has the wrong sign: {f32v}");
         Ok(())
     }
 }
